@@ -151,7 +151,11 @@ def canon_val(j):
 def legacy_cases(rng):
     """dictionaries in the legacy encodings, with the current encoding they must be equivalent to"""
     out = []
-    for off, neg in [(0, False), (0, True), (120, False), (-330, False), (-120, True), (1439, False), (-32768, False), (32767, False), (59, False)]:
+    offs = [(0, False), (0, True), (120, False), (-330, False), (-120, True), (1439, False), (-32768, False), (32767, False), (59, False)]
+    # every sign / sub-hour / hour-boundary shape, with and without the negative-UTC flag where it is meaningful
+    offs += [(o, False) for o in (-1, 1, -30, 30, -59, -60, -61, 60, 61, -119, -121, -600, 600, -1439, -1440, 1440, 32700)]
+    offs += [(o, True) for o in (-1, -30, -59, -60, -61, -600, -32768)]
+    for off, neg in offs:
         ts = {"seconds": rng.choice([0, -1, 1234567890]), "microseconds": rng.choice([0, 5])}
         hh, mm = divmod(abs(off), 60)
         ob = ("%s%02d%02d" % ("-" if off < 0 or neg else "+", hh, mm)).encode()
